@@ -1067,7 +1067,7 @@ fn large(c: &mut Case) {
 fn main() {
     runner::main(Spec {
         property: "C17",
-        rule: "families: metric (one random triple x,y,z of length 1..30 evaluated by Euclidean, Manhattan and Minkowski p=1..8: closed forms, non-negativity, d(v,v)==0, symmetry, triangle inequality, p=1/p=2 coincidences), hamming (symbol vectors presented as floats / i64 / u8, result f32 or f64), maha_cov (Mahalanobis::new_from_covariance on SPD matrices of order 1..30 with measured condition number <= 1e4, DenseMatrix / ndarray / nalgebra; identity covariance vs Euclidean), maha_data (Mahalanobis::new / Distances::mahalanobis on full-rank data whose exact sample covariance has condition number <= 1e4), reject (exhaustive over distance x width x all pairs of different lengths 0..8, and for Mahalanobis over covariance order 1..4 x all length pairs 0..5 other than the matching one; values random). Triples are independent, equal, differing in one coordinate (by a new value or 1..4 ulps), collinear, near-equal, sparse differences, multiples, or (Mahalanobis) differences along eigenvectors of the covariance; components of magnitude 1e-6..1e6 (or the narrower band 1e-3..1e3), common scale / mixed magnitudes / exact integers / extremes; f32 and f64 with equal probability. A case is non-trivial when at least two of its three vectors differ (every reject case is); distinct = distinct hash of (width, length, all vector components, covariance entries).; maha_scale: covariance 2^k·A (A SPD of order 1..6, cond <= 1e3, k even, |k| <= 900 in f64 / 100 in f32) and points 2^(k/2+j)·u apart (|j| <= 60 / 40): closed form 2^j·sqrt(uᵀA⁻¹u), symmetry, d(x,x) = 0",
+        rule: "families: metric (one random triple x,y,z of length 1..30 evaluated by Euclidean, Manhattan and Minkowski p=1..8: closed forms, non-negativity, d(v,v)==0, symmetry, triangle inequality, p=1/p=2 coincidences), hamming (symbol vectors presented as floats / i64 / u8, result f32 or f64), maha_cov (Mahalanobis::new_from_covariance on SPD matrices of order 1..30 with measured condition number <= 1e4, DenseMatrix / ndarray / nalgebra; identity covariance vs Euclidean), maha_data (Mahalanobis::new / Distances::mahalanobis on full-rank data whose exact sample covariance has condition number <= 1e4), reject (exhaustive over distance x width x all pairs of different lengths 0..8, and for Mahalanobis over covariance order 1..4 x all length pairs 0..5 other than the matching one; values random). Triples are independent, equal, differing in one coordinate (by a new value or 1..4 ulps), collinear, near-equal, sparse differences, multiples, or (Mahalanobis) differences along eigenvectors of the covariance; components of magnitude 1e-6..1e6 (or the narrower band 1e-3..1e3), common scale / mixed magnitudes / exact integers / extremes; f32 and f64 with equal probability. A case is non-trivial when at least two of its three vectors differ (every reject case is); distinct = distinct hash of (width, length, all vector components, covariance entries).; maha_scale: covariance 2^k·A (A SPD of order 1..6, cond <= 1e3, k even, |k| <= 900 in f64 / 100 in f32) and points 2^(k/2+j)·u apart (|j| <= 60 / 40): closed form 2^j·sqrt(uᵀA⁻¹u), symmetry, d(x,x) = 0; large: closed forms, metric laws, Hamming and Mahalanobis identities on 31..105 entries",
         assumptions: vec![
             "oracle arithmetic is f64 on the inputs already rounded to the tested width: compensated sums for the l_p family, Cholesky solve + 3 refinement steps with Dot2 residuals for Mahalanobis; a Mahalanobis reference that did not converge (last correction > 1e-10 of the solution) or whose error estimate exceeds 10 % of the tolerance makes the case inconclusive",
             "closed-form tolerance of the l_p family: relative 4·(len + 4 + |ln d|)·eps (the |ln d| term only for p >= 3: rounding of the exponent 1/p), i.e. 8x the first-order rounding-error bound of coordinate-wise accumulation and root",
@@ -1083,7 +1083,7 @@ fn main() {
             Family::new("maha_cov", 12000, 200000, maha_cov),
             Family::new("maha_data", 8000, 120000, maha_data),
             Family::new("maha_scale", 6000, 100000, maha_scale),
-            Family::new("large", 900, 18000, large),
+            Family::new("large", 600, 5000, large),
             Family::new("reject", REJ_TOTAL, REJ_TOTAL, reject).exhaustive(true, true),
         ],
         min_nontrivial: 10000,
